@@ -43,6 +43,16 @@ def run_module(mod, repo, verif, timeout=3000):
         os.makedirs(os.path.join(verif, '.cache'), exist_ok=True)
         with open(os.path.join(verif, '.cache', 'cargo-test.lock'), 'w') as lk:
             fcntl.flock(lk, fcntl.LOCK_EX)
+            # cargo decides freshness by mtime and the artifact name does not depend on the scratch path: stamp every
+            # source of the crate now (after the lock), so that this scratch copy is always rebuilt and never mistaken
+            # for the tree another check compiled a moment ago
+            now = time.time()
+            for root, _dirs, files in os.walk(os.path.join(scratch, 'src')):
+                for fn in files:
+                    try:
+                        os.utime(os.path.join(root, fn), (now, now))
+                    except OSError:
+                        pass
             p = subprocess.run(cmd, cwd=scratch, env=env, stdout=subprocess.PIPE, stderr=subprocess.STDOUT, text=True, timeout=timeout)
         out = p.stdout
         if 'test result:' not in out:
